@@ -230,6 +230,10 @@ def check_version(S):
     S.oblige("O3.error_names_server_version", SBool(z3.Contains(msg.t, sv.t)))
     S.oblige("O3.error_kind_is_protocol_version_mismatch", getattr(out.exc.cls, "error_kind", None) == "protocol_version_mismatch", kind="post")
     if present:
+        # stepping stone for the solvers (a plain regular-language inclusion): canonical versions are ASCII, so the
+        # bytes and their decoding coincide
+        ascii_star = z3.Star(z3.Range(z3.StringVal("\x00"), z3.StringVal("\x7f")))
+        S.lemma("O3.L.canonical_client_bytes_are_ascii", Implies(SBool(z3.InRe(client.t, CANON)), SBool(z3.InRe(client.t, ascii_star))))
         S.oblige("O3.refuses_only_nonmatching", Not(matches(client.t, sv)))
         # when the client value is a canonical ASCII version, the message names it too
         S.oblige("O3.error_names_client_version_when_canonical", Implies(SBool(z3.InRe(client.t, CANON)), SBool(z3.Contains(msg.t, client.t))))
